@@ -23,8 +23,16 @@ import (
 // ---------------------------------------------------------------------------------------------------------------------
 
 type countStep struct {
-	Kind  string `json:"kind"` // accept | reject | error | tooold | stale | notready | ready
+	Kind  string `json:"kind"` // accept | reject | error | tooold | stale | notready | ready | reconfig
 	Limit int32  `json:"limit,omitempty"`
+	// reconfig: the schema's new limits, applied with UpstreamLimiter.Sync + one reconcile round
+	NL  int32 `json:"newLocal,omitempty"`
+	NG  int32 `json:"newGlobal,omitempty"`
+	NLB int32 `json:"newLocalBurst,omitempty"`
+	NGB int32 `json:"newGlobalBurst,omitempty"`
+	// token bucket, fixed shapes only: let the bucket in effect refill for this long before the probe (the window starts
+	// before the sleep), so that a RATE above the global one becomes visible, not only a burst
+	SleepMs int `json:"sleepMsBeforeProbe,omitempty"`
 	// observation
 	E  int     `json:"admitted"`
 	Dt float64 `json:"probeSeconds,omitempty"`
@@ -39,7 +47,7 @@ type countHistory struct {
 func (h *countHistory) hash() uint64 {
 	s := fmt.Sprintf("%+v", h.Cfg)
 	for _, st := range h.Steps {
-		s += fmt.Sprintf("|%s,%d", st.Kind, st.Limit)
+		s += fmt.Sprintf("|%s,%d,%d,%d,%d,%d", st.Kind, st.Limit, st.NL, st.NG, st.NLB, st.NGB)
 	}
 	return vkit.Hash64(s)
 }
@@ -98,25 +106,37 @@ func genLimit(g *vkit.Rand, G int32) int32 {
 
 func genCountHistory(g *vkit.Rand, typ string, n int) *countHistory {
 	h := &countHistory{Cfg: genCountCfg(g, typ), Shape: "random"}
+	curG := h.Cfg.G
+	withReconfig := g.Chance(0.4)
 	for i := 0; i < n; i++ {
 		st := countStep{}
+		if withReconfig && i > 0 && g.Chance(0.2) {
+			// spec update; the limits answered afterwards are drawn around BOTH the old and the new global limit
+			nc := genCountCfg(g, typ)
+			st.Kind, st.NL, st.NG, st.NLB, st.NGB = "reconfig", nc.L, nc.G, nc.LB, nc.GB
+			h.Steps = append(h.Steps, st)
+			if nc.G > curG {
+				curG = nc.G
+			}
+			continue
+		}
 		switch x := g.Intn(100); {
 		case x < 34:
 			st.Kind = "accept"
-			st.Limit = genLimit(g, h.Cfg.G)
+			st.Limit = genLimit(g, curG)
 			if typ == "tokenbucket" && g.Chance(0.6) {
 				st.Limit = 10000 // plenty of server tokens: the bucket is the binding constraint, probes do not wait
 			}
 		case x < 56:
 			st.Kind = "reject"
-			st.Limit = genLimit(g, h.Cfg.G)
+			st.Limit = genLimit(g, curG)
 		case x < 78:
 			st.Kind = "error"
 		case x < 83:
 			st.Kind = "tooold"
 		case x < 90:
 			st.Kind = "stale"
-			st.Limit = genLimit(g, h.Cfg.G)
+			st.Limit = genLimit(g, curG)
 		case x < 95:
 			st.Kind = "notready"
 		default:
@@ -140,6 +160,11 @@ func fixedCountHistories() []*countHistory {
 		{Cfg: mi, Shape: "reject-negative", Steps: []countStep{{Kind: "accept", Limit: 8}, {Kind: "reject", Limit: -1}}},
 		{Cfg: mi, Shape: "outage-and-recovery", Steps: []countStep{{Kind: "accept", Limit: 8}, {Kind: "error"}, {Kind: "notready"}, {Kind: "ready"}, {Kind: "accept", Limit: 12}, {Kind: "accept", Limit: 27}}},
 		flap,
+		{Cfg: mi, Shape: "global-lowered-during-outage", Steps: []countStep{{Kind: "accept", Limit: 8}, {Kind: "error"}, {Kind: "reconfig", NL: 5, NG: 10}, {Kind: "accept", Limit: 18}, {Kind: "reject", Limit: 19}}},
+		{Cfg: mi, Shape: "global-lowered-while-healthy", Steps: []countStep{{Kind: "accept", Limit: 8}, {Kind: "reconfig", NL: 5, NG: 10}, {Kind: "accept", Limit: 18}, {Kind: "error"}, {Kind: "accept", Limit: 9}}},
+		{Cfg: mi, Shape: "global-raised-during-outage", Steps: []countStep{{Kind: "accept", Limit: 8}, {Kind: "error"}, {Kind: "reconfig", NL: 7, NG: 40}, {Kind: "accept", Limit: 30}, {Kind: "notready"}}},
+		{Cfg: tbWide, Shape: "tb-global-lowered-during-outage", Steps: []countStep{{Kind: "accept", Limit: 10000}, {Kind: "error"}, {Kind: "reconfig", NL: 10, NLB: 5, NG: 20, NGB: 10}, {Kind: "tooold", SleepMs: 600}, {Kind: "accept", Limit: 10000}}},
+		{Cfg: mi, Shape: "global-lowered-while-not-ready", Steps: []countStep{{Kind: "accept", Limit: 15}, {Kind: "notready"}, {Kind: "reconfig", NL: 3, NG: 10}, {Kind: "ready"}, {Kind: "accept", Limit: 15}}},
 		{Cfg: tbNarrow, Shape: "outage-narrow-burst", Steps: []countStep{{Kind: "accept", Limit: 10000}, {Kind: "error"}, {Kind: "accept", Limit: 10000}}},
 		{Cfg: tbWide, Shape: "grant-accounting", Steps: []countStep{{Kind: "accept", Limit: 0}, {Kind: "error"}, {Kind: "accept", Limit: 3}, {Kind: "notready"}, {Kind: "ready"}}},
 	}
@@ -195,6 +220,8 @@ func runCountHistory(r *vkit.R, h *countHistory) {
 		anyApplied     bool    // some accept/reject answer was applied
 		hadOutage      bool    // the wrapper was in error mode at some point
 		insaneGrant    bool    // an accepted answer carried a negative token count
+		reconfigured   bool    // the schema's limits were changed at some point of this history
+		unavail        bool    // attribution only: the wrapper's server-unavailable state as the real code keeps it
 		maxServerLimit int32   // the largest limit any answer carried so far, clamped to [0, global]
 		recovered      bool    // the current accept mode was entered from error mode
 		granted        int64   // token bucket: tokens granted by accept replies
@@ -224,6 +251,7 @@ func runCountHistory(r *vkit.R, h *countHistory) {
 			recovered = mode == "error"
 			mode, lastKind, lastLimit = "accept", "accept", st.Limit
 			anyApplied = true
+			unavail = false
 			if st.Limit > 0 {
 				granted += int64(st.Limit)
 			}
@@ -238,6 +266,7 @@ func runCountHistory(r *vkit.R, h *countHistory) {
 				// attribution only (not a verdict): the token-bucket wrapper does not order answers, the max-in-flight
 				// wrapper drops an old answer once any answer was applied
 				lastKind, lastLimit = "accept", st.Limit
+				unavail = false
 			}
 			if isTB && mode == "error" {
 				recovered = true
@@ -258,12 +287,35 @@ func runCountHistory(r *vkit.R, h *countHistory) {
 			p = inject(&proxyv1alpha1.RateLimitAcquireResult{Error: "upstream " + clusterName + ", shard 0, leader is limiter-1"}, reqSeq)
 			mode, lastKind = "error", "error"
 			hadOutage = true
+			unavail = true
 		case "tooold":
 			p = inject(&proxyv1alpha1.RateLimitAcquireResult{Error: "RequestIDTooOld"}, reqSeq)
 		case "notready":
 			ready = false
 		case "ready":
 			ready = true
+		case "reconfig":
+			// spec update while the server is ok / failing / not ready. Propagation: the local limit follows inside Sync;
+			// the global limit reaches the wrapper in the next reconcile round (updateGlobalCuntFlowControls ->
+			// remoteWrapper.Sync -> Resize), which runs whatever the server's state. From then on the oracle judges
+			// against the new limits.
+			cfg.L, cfg.G, cfg.LB, cfg.GB = st.NL, st.NG, st.NLB, st.NGB
+			gw.cfg = cfg
+			// token bucket: a new epoch for the whole-history window check (a resize may legitimately start a new bucket;
+			// within an epoch the admissions are judged against that epoch's global bucket)
+			admT0, admT1, admMode, transitions = nil, nil, nil, nil
+			p = vkit.Safely(func() {
+				gw.lim.Sync(proxyv1alpha1.FlowControl{Schemas: []proxyv1alpha1.FlowControlSchema{cfg.schema()}})
+				gw.reconcileOnce()
+			})
+			reconfigured = true
+			if mode != "error" && !isTB {
+				mode = "ambiguous" // the wrapper may shrink to its reserve until the next answer: only "<= global" is judged
+			}
+			if maxServerLimit > cfg.G {
+				maxServerLimit = cfg.G
+			}
+			r.Count("count_det_reconfigurations", 1)
 		}
 		if (st.Kind == "accept" || st.Kind == "stale") && st.Limit < 0 {
 			insaneGrant = true
@@ -285,6 +337,16 @@ func runCountHistory(r *vkit.R, h *countHistory) {
 		}
 
 		cls := limitClass(lastKind, lastLimit, cfg.G)
+		if reconfigured {
+			// attribution: a limit that was changed while the wrapper was in its server-unavailable state (entered by an
+			// error answer, left only by an accepted one) and is still not enforced in that state is one defect class; an
+			// excess in any other state after a reconfiguration (e.g. after the recovery) is another
+			if unavail {
+				cls = "after-reconfigure/while-server-unavailable"
+			} else {
+				cls = "after-reconfigure/" + cls
+			}
+		}
 		if !isTB {
 			var E int
 			if p := vkit.Safely(func() { E = probeInflight(gw, int(cfg.G)+5) }); p != nil {
@@ -357,6 +419,13 @@ func runCountHistory(r *vkit.R, h *countHistory) {
 		if mode != "error" && hadOutage {
 			tbMode = "after-recovery" // server-available mode that was entered from an outage at some point of this history
 		}
+		if reconfigured {
+			if unavail {
+				tbMode = "after-reconfigure/while-server-unavailable"
+			} else {
+				tbMode = "after-reconfigure/" + tbMode
+			}
+		}
 		cap := int(cfg.GB) + 10
 		var n int
 		var t0, t1 int64
@@ -364,6 +433,9 @@ func runCountHistory(r *vkit.R, h *countHistory) {
 			fc := gw.fc()
 			t0 = bed.Now()
 			t1 = t0
+			if st.SleepMs > 0 {
+				time.Sleep(time.Duration(st.SleepMs) * time.Millisecond)
+			}
 			for n < cap {
 				c0 := bed.Now()
 				if !fc.TryAcquire() {
